@@ -1,6 +1,6 @@
 (* C01 Escrow solvency: funds held always equal what open orders are owed. *)
 From ATS Require Import Prelude Dec DecFacts Uuid Semver Types Contract Tactics Spec Inv InvAsk InstProofs AskProofs
-  BidFacts InvBid InvStep ExitProofs Frame Ledger OrderLedger MigrateProofs MigrateInv Hist Witness.
+  BidFacts InvBid InvStep ExitProofs Frame Ledger OrderLedger MigrateProofs MigrateInv Hist OrderHist Witness.
 
 (* Per step.  For every accepted request of any kind, in any state satisfying the invariant, outside the known
    numeric classes (clean_exec: a side condition on MATCHES only -- the products price*size it forms are exact, which
@@ -84,6 +84,14 @@ Theorem C01_order_by_order : forall e m st0 r0 evs k d,
   (lookup k (st_bids (run st0 evs)) = None -> fst (bid_ledger st0 evs k d) = snd (bid_ledger st0 evs k d)).
 Proof. exact order_by_order. Qed.
 Print Assumptions C01_order_by_order.
+
+(* ... and order by order over histories with migrations interleaved *)
+Theorem C01_order_by_order_with_migrations : forall e m st0 r0 hs k d,
+  env_version_ok e -> instantiate e empty_state m = Ok (st0, r0) -> hclean st0 hs ->
+  fst (hask_ledger st0 hs k d) = snd (hask_ledger st0 hs k d) + ask_owed_at (hrun st0 hs) k d /\
+  fst (hbid_ledger st0 hs k d) = snd (hbid_ledger st0 hs k d) + bid_owed_at (hrun st0 hs) k d.
+Proof. exact order_by_order_with_migrations. Qed.
+Print Assumptions C01_order_by_order_with_migrations.
 
 (* a refused request changes nothing and moves nothing (it contributes nothing to the ledger: by definition of
    `ledger` and `run_event`); an order leaving the book releases exactly what it was owed: *)
